@@ -190,7 +190,17 @@ def conflict_struct(prefix, depth):
 for i in range(40):
     n = conflict_struct("ZX", 2)
     decls.append((n, "conflict"))
-declare("ZC9", ["B string", "ZCInner3b"], "conflict")   # the deeper field is tagged with the name of an untagged shallower one
+declare("ZC9", ["B string", "ZCInner3b"], "conflict")
+# diamonds: one struct reached twice at the same depth, by value, by pointer and mixed (its fields cancel)
+declare("ZDI", ["X int", 'W string `json:"w"`'], "plain")
+declare("ZDLv", ["ZDI"], "plain")
+declare("ZDRv", ["ZDI"], "plain")
+declare("ZDLp", ["*ZDI"], "plain")
+declare("ZDRp", ["*ZDI"], "plain")
+declare("ZD1", ["ZDLv", "ZDRv", "Y int"], "conflict")
+declare("ZD2", ["ZDLp", "ZDRp", "Y int"], "conflict")
+declare("ZD3", ["ZDLv", "ZDRp", "Y int"], "conflict")
+declare("ZD4", ["*ZDLp", "ZDRp", "Y int", "X2 int"], "conflict")   # the deeper field is tagged with the name of an untagged shallower one
 out.append("""type ZCInner3b struct {
 	X int `json:"B"`
 	N int
@@ -237,6 +247,15 @@ declare("ZU3", ["M map[int]string"], "unsupported")
 declare("ZU4", ["D []map[string]*struct{ Z complex128 }", "K int"], "unsupported")
 declare("ZU5", ["ZU1", "K int"], "unsupported")
 declare("ZU6", ["P *[]chan bool `json:\"p\"`"], "unsupported")
+# named unsupported types occurring several times in one type (dropped every time with IgnoreInvalidTypes, never a cycle)
+out.append("type ZCb func()")
+out.append("type ZSet map[int]bool")
+out.append("type ZCh chan int")
+out.append("type ZC128 complex128")
+declare("ZU7", ["A ZCb", "B ZCb", "K int"], "unsupported")
+declare("ZU8", ["S1 ZSet", "P *ZSet", "L []ZSet", "K string"], "unsupported")
+declare("ZU9", ["C ZCh `json:\"c\"`", "D []ZCh", "M map[string]ZCh", "E ZCh"], "unsupported")
+declare("ZU10", ["X ZC128", "Y *ZC128", "In struct{ Z ZC128 }", "K int"], "unsupported")
 # 8. more plain: slog.Level, deep nesting, arrays, every scalar
 declare("ZAll", ["F%d %s" % (i, s) for i, s in enumerate(SCALARS)], "plain")
 declare("ZAllPtr", ["F%d *%s `json:\"f%d,omitempty\"`" % (i, s, i) for i, s in enumerate(SCALARS)], "plain")
